@@ -545,6 +545,9 @@ func main() {
 		{name: "R1-chunked-dl", r: 1 * MiB, dir: "download", via: "http", conns: 1, size: 8 * MiB, limited: true, chunked: true},
 		{name: "R1-logbody-dl", r: 1 * MiB, dir: "download", via: "http", conns: 1, size: 8 * MiB, limited: true, logBody: true},
 		{name: "R1-logbody-chunked-dl", r: 1 * MiB, dir: "download", via: "http", conns: 1, size: 8 * MiB, limited: true, logBody: true, chunked: true},
+		// many tunnels at once on a limited listener (the proxy copies them through its own buffers)
+		{name: "R64-16conns-tunnel-dl", r: 64 * MiB, dir: "download", via: "tunnel", conns: 16, size: 2 * MiB, limited: true},
+		{name: "W64-16conns-tunnel-ul", w: 64 * MiB, dir: "upload", via: "tunnel", conns: 16, size: 2 * MiB, limited: true},
 		{name: "R1W4-dl", r: 1 * MiB, w: 4 * MiB, dir: "download", via: "http", conns: 1, size: 9 * MiB, limited: true},
 		{name: "R1W4-ul", r: 1 * MiB, w: 4 * MiB, dir: "upload", via: "tunnel", conns: 1, size: 20 * MiB, limited: true},
 		// many connections queueing on one limiter: each write waits longer than a second
